@@ -69,8 +69,11 @@ func (r res) toResult() *benchfmt.Result {
 	return out
 }
 
+// curFilter is the BuilderOptions.Filter of every Builder made while a case runs (default: keep every unit).
+var curFilter = ".unit:/.*/"
+
 func newBuilder(ntable int) *benchseries.Builder {
-	opts := &benchseries.BuilderOptions{Filter: ".unit:/.*/", Series: "ser", Table: strings.Join(tableKeys[:ntable], ","), Experiment: "exp",
+	opts := &benchseries.BuilderOptions{Filter: curFilter, Series: "ser", Table: strings.Join(tableKeys[:ntable], ","), Experiment: "exp",
 		Compare: "role", Numerator: "num", Denominator: "den", NumeratorHash: "nh", DenominatorHash: "dh",
 		Warn: func(string, ...interface{}) {}}
 	b, err := benchseries.NewBuilder(opts)
@@ -704,6 +707,107 @@ func interleaveShape(r *hx.Rand, nexp, per int, twoBench bool) []res {
 		}
 	}
 	return rs
+}
+
+var unitPool = []string{"ns/op", "B/op", "allocs/op", "MB/s"}
+
+var unitFilters = []string{".unit:B/op", ".unit:allocs/op", ".unit:(B/op OR allocs/op)", ".unit:ns/op", ".unit:(allocs/op OR MB/s)", ".unit:MB/s", "-.unit:ns/op"}
+
+// reunit gives every result 2-4 units of unitPool in a random order (fixed leading ns/op half of the time, as
+// go test prints it) with values that identify the unit.
+func reunit(r *hx.Rand, rs []res) {
+	for i := range rs {
+		perm := []int{0, 1, 2, 3}
+		for a := 3; a > 0; a-- {
+			b := r.Intn(a + 1)
+			perm[a], perm[b] = perm[b], perm[a]
+		}
+		if r.Bool() {
+			for a, u := range perm {
+				if u == 0 {
+					perm[0], perm[a] = perm[a], perm[0]
+				}
+			}
+		}
+		k := 2 + r.Intn(3)
+		rs[i].units, rs[i].vals = nil, nil
+		for _, u := range perm[:k] {
+			rs[i].units = append(rs[i].units, unitPool[u])
+			rs[i].vals = append(rs[i].vals, float64(1000*(u+1)+r.Intn(40))+0.5)
+		}
+	}
+}
+
+func filteredCases(r *hx.Rand) {
+	defer func() { curFilter = ".unit:/.*/" }()
+	mk := func(role string, units []string, vals []float64) res {
+		return res{table: []string{"amd64", "linux"}, bench: "Foo", exp: expsA[0], ser: stampsA[0], role: role, nh: "n0", dh: "d0", units: units, vals: vals}
+	}
+	benchmem := []res{mk("num", []string{"ns/op", "B/op", "allocs/op"}, []float64{100, 2000, 30}), mk("den", []string{"ns/op", "B/op", "allocs/op"}, []float64{110, 2100, 31}),
+		mk("num", []string{"ns/op", "B/op", "allocs/op"}, []float64{101, 2001, 32})}
+	for _, f := range unitFilters[:3] {
+		curFilter = f
+		seriesCase(benchmem, 0, 0, r, []string{"corpus", "filter"})
+	}
+	n := hx.N(40, 600)
+	for i := 0; i < n; i++ {
+		rs, nt, tags := genSeries(r, 2+r.Intn(5))
+		reunit(r, rs)
+		curFilter = hx.Pick(r, unitFilters)
+		seriesCase(rs, nt, r.Intn(2), r, append(tags, "filter", "multiunit"))
+	}
+}
+
+// heavyCase: a bootstrap too large for the model to replay (resamples x samples per resample in the millions).
+// Judged from the samples alone: low <= centre <= high and all three within the attainable ratios.
+func heavyCase(nu, de []float64, conf float64, n int, tag string) {
+	cid := id
+	id++
+	hx.Printf("case %d kind=heavy nnu=%d nde=%d conf=%s n=%d tag=%s\n", cid, len(nu), len(de), hx.F64(conf), n, tag)
+	defer func() {
+		if e := recover(); e != nil {
+			hx.Printf("crash %d %s\n", cid, strings.ReplaceAll(fmt.Sprint(e), "\n", " "))
+		}
+	}()
+	cs, bn, sr := buildPoints([]point{{nu, de}})
+	cs.AddSummaries(conf, n)
+	sum, ok := cs.SummaryAt(bn[0], sr[0])
+	if !ok || sum == nil || !sum.Present {
+		panic("no summary")
+	}
+	mn := func(a []float64) (lo, hi float64) {
+		lo, hi = a[0], a[0]
+		for _, v := range a {
+			lo, hi = math.Min(lo, v), math.Max(hi, v)
+		}
+		return
+	}
+	nl, nh := mn(nu)
+	dl, dh := mn(de)
+	lo, hi := nl/dh, nh/dl
+	ord, in := 0, 0
+	if sum.Low <= sum.Center && sum.Center <= sum.High {
+		ord = 1
+	}
+	if lo <= sum.Low && sum.Low <= hi && lo <= sum.Center && sum.Center <= hi && lo <= sum.High && sum.High <= hi {
+		in = 1
+	}
+	hx.Printf("sobs %d ord=%d in=%d\n", cid, ord, in)
+}
+
+func heavyCases(r *hx.Rand) {
+	noisy := func(n int, base float64) []float64 {
+		out := make([]float64, n)
+		for i := range out {
+			out[i] = base * (1 + r.Float()/10)
+		}
+		return out
+	}
+	heavyCase(noisy(20, 100), noisy(20, 90), 0.95, 150000, "heavy+resamples")
+	if hx.Tier() == "thorough" {
+		heavyCase(noisy(2500, 100), noisy(2500, 90), 0.95, 1000, "heavy+samples")
+		heavyCase(noisy(25, 100), noisy(25, 90), 0.9, 100000, "heavy+resamples")
+	}
 }
 
 // ---------------------------------------------------------------- bootstrap
@@ -1602,6 +1706,9 @@ func main() {
 		pol := r.Intn(2)
 		seriesCase(rs, nt, pol, r, tags)
 	}
+	// Builder filters selecting a proper subset of the units of a line, not necessarily the leading ones; lines carry
+	// 2-4 units in varying order; every selected unit gets its own table holding exactly ITS measurements
+	filteredCases(r)
 	nl := hx.N(60, 1000)
 	for i := 0; i < nl; i++ {
 		rs, nt, tags := genSeries(r, 6+r.Intn(20))
@@ -1625,6 +1732,7 @@ func main() {
 		seriesCaseN(interleaveShape(r, 3+r.Intn(3), 1+r.Intn(3), r.Bool()), []int{0, 2}[r.Intn(2)], 1, r, []string{"interleave", "multiexp", "large"}, 3)
 	}
 	bootstrapCases(r)
+	heavyCases(r)
 	multiCases(r)
 	incrCases(r)
 	jsonCases(r)
